@@ -484,7 +484,10 @@ func (m MatchPath) MatchWithError(r *http.Request) (bool, error) {
 		// the intent is to compare that part of the path in raw/escaped
 		// space; i.e. "%40"=="%40", not "@", and "%2F"=="%2F", not "/"
 		if strings.Contains(matchPattern, "%") {
-			reqPathForPattern := CleanPath(r.URL.EscapedPath(), mergeSlashes)
+			// the escaped path is lower-cased for the same reason (and in the
+			// same way) as the unescaped path above; the pattern was already
+			// lower-cased in provisioning
+			reqPathForPattern := CleanPath(strings.ToLower(r.URL.EscapedPath()), mergeSlashes)
 			if m.matchPatternWithEscapeSequence(reqPathForPattern, matchPattern) {
 				return true, nil
 			}
@@ -644,8 +647,11 @@ func (MatchPath) matchPatternWithEscapeSequence(escapedPath, matchPath string) b
 	// we can now treat rawpath globs (%*) as regular globs (*)
 	matchPath = strings.ReplaceAll(matchPath, "%*", "*")
 
-	// ignore error here because we can't handle it anyway=
-	matches, _ := path.Match(matchPath, sb.String())
+	// escape sequences of the path may have been decoded to upper-case
+	// letters above ("%4A" is "J"), so lower-case what we have built, like
+	// the unescaped path is lower-cased; ignore error here because we can't
+	// handle it anyway=
+	matches, _ := path.Match(matchPath, strings.ToLower(sb.String()))
 	return matches
 }
 
